@@ -23,6 +23,14 @@ def runChan (c : Chan) (h : Hist) : List Ev → Option (Chan × Hist)
     | .error e => if e.isApi then runChan c h rest else none
     | .ok (c', ms, os) => runChan c' ((h.recordEv ev).record c c' ms os) rest
 
+/-- the same run over the endpoint as it was before the fixes (witness theorems only) -/
+def runChanOld (c : Chan) (h : Hist) : List Ev → Option (Chan × Hist)
+  | [] => some (c, h)
+  | ev :: rest =>
+    match stepOld c ev with
+    | .error e => if e.isApi then runChanOld c h rest else none
+    | .ok (c', ms, os) => runChanOld c' ((h.recordEv ev).record c c' ms os) rest
+
 structure AcctInv (c0 c : Chan) (h : Hist) : Prop where
   wf : WF c
   send : h.sentBytes + c.sendWindow = c0.sendWindow + h.adjIn
